@@ -20,7 +20,7 @@ let c29_usage (line : string) : string =
   | [_site; vt; vd; lt; ld] ->
     let d = { cv_ty = tref_of_desc vt 0; cv_default = default_of vd } in
     let u = { cu_ty = tref_of_desc lt 0; cu_default = default_of ld } in
-    "allowed=" ^ b01 (compat_usage_allowed d u) ^ " known=" ^ b01 (compat_known_null_default d u)
+    "allowed=" ^ b01 (compat_usage_allowed d u)
   | _ -> failwith "c29_usage line"
 
 (* schema description: entries separated by ';' : Name:o:I,J (object implements) | Name:i:I (interface
